@@ -7,7 +7,6 @@ from .._sentinels import undefined
 from .._utils import value_to_token
 from .generic_value import GenericValue
 from .generic_value import clone
-from .generic_value import ignore_old_value
 
 
 class MinMaxValue(GenericValue):
@@ -23,14 +22,16 @@ class MinMaxValue(GenericValue):
 
         if self._new_value is undefined:
             self._new_value = clone(other)
-            if self._old_value is undefined or ignore_old_value():
-                return True
-            return self._return(self.cmp(self._old_value, other))
         else:
             if not self.cmp(self._new_value, other):
                 self._new_value = clone(other)
 
-        return self._return(self.cmp(self._visible_value(), other))
+        if self._old_value is undefined:
+            return True
+
+        # the comparison with the current value decides if the test is reported as failed,
+        # the result is True if the value will be changed (like for ==)
+        return self._return(self.cmp(self._old_value, other))
 
     def _new_code(self):
         return self._file._value_to_code(self._new_value)
